@@ -13,6 +13,7 @@ use crate::ParserOptions;
 
 const BLOCK_VALID_CHAIN: u64 = 4;
 const BLOCK_HAVE_DATA: u64 = 8;
+const BLOCK_HAVE_UNDO: u64 = 16;
 
 /// Holds the index of longest valid chain
 pub struct ChainIndex {
@@ -101,8 +102,16 @@ impl BlockIndexRecord {
         let height = read_varint(&mut reader)?;
         let status = read_varint(&mut reader)?;
         let tx_count = read_varint(&mut reader)?;
-        let blk_index = read_varint(&mut reader)?;
-        let data_offset = read_varint(&mut reader)?;
+        let blk_index = if status & (BLOCK_HAVE_DATA | BLOCK_HAVE_UNDO) > 0 {
+            read_varint(&mut reader)?
+        } else {
+            0
+        };
+        let data_offset = if status & BLOCK_HAVE_DATA > 0 {
+            read_varint(&mut reader)?
+        } else {
+            0
+        };
 
         Ok(BlockIndexRecord {
             block_hash: sha256d::Hash::from_byte_array(block_hash),
